@@ -320,3 +320,62 @@ func init() {
 			Opts: vrt.Options{Delay: true}, Run: nProg(p.threads, p.ops), Check: notifierProgCheck})
 	}
 }
+
+// sProg: ChanPubSub with two subscribers whose kind (manual / iterator), appetite (0-2 messages),
+// start (before the sends or concurrently with them) and way of leaving (on their own, or told to
+// quit / cancelled by a separate thread at any point) are enumerated, and one or two senders.
+func sProg() {
+	e := newPsEnv()
+	var cancels []psCancel
+	for id := 1; id <= 2; id++ {
+		kind := vrt.Choose(2, 0)  // 0 manual, 1 iterator
+		k := vrt.Choose(3, 0)     // messages it wants
+		early := vrt.Choose(2, 0) // 1: a separate thread tells it to leave at any point
+		await := vrt.Choose(2, 0) // 1: established before the senders start
+		var sub chan struct{}
+		if await == 1 {
+			sub = make(chan struct{})
+		}
+		e.uwg.Add(1)
+		if kind == 0 {
+			q := (<-chan struct{})(e.quit)
+			if early == 1 {
+				qc := make(chan struct{})
+				q = qc
+				go func() {
+					vrt.Log("quit", id)
+					close(qc)
+				}()
+			}
+			go e.manualSub(id, k, q, sub)
+		} else {
+			ctx, cancel := context.WithCancel(context.Background())
+			cancels = append(cancels, psCancel{id, cancel})
+			if early == 1 {
+				go func() {
+					vrt.Log("unsubcall", id)
+					cancel()
+				}()
+			}
+			go e.iterSub(id, ctx, k, sub)
+		}
+		if sub != nil {
+			<-sub
+		}
+	}
+	if vrt.Choose(2, 0) == 0 {
+		e.swg.Add(1)
+		go e.sender(1, 2)
+	} else {
+		e.swg.Add(2)
+		go e.sender(1)
+		go e.sender(2)
+	}
+	e.finish(cancels...)
+}
+
+func init() {
+	vrt.Register(&vrt.Scenario{Name: "S-prog", Props: []string{"C06:deliver-", "C07", "C11:race", "C12:goroutine-leak"}, Quick: 1, Thorough: 2, Heavy: true,
+		Desc: "two ChanPubSub subscribers with enumerated kind (manual/iterator), appetite (0-2), start (before/concurrent) and way of leaving (own accord / told at any point), one sender of two messages or two senders",
+		Opts: vrt.Options{Delay: true}, Run: sProg, Check: pubsubCheck})
+}
